@@ -6,6 +6,7 @@ package main
 import (
 	"go/constant"
 	"go/token"
+	"sort"
 	"strconv"
 	"strings"
 
@@ -22,6 +23,225 @@ type Guard struct {
 // guardsAt lists the branch edges that dominate block b: edge D->S counts iff
 // S dominates b (or is b) and every other predecessor of S is dominated by S.
 func (p *Program) guardsAt(b *ssa.BasicBlock) []Guard {
+	return p.guardsAtDepth(b, 0)
+}
+
+func (p *Program) guardsAtDepth(b *ssa.BasicBlock, depth int) []Guard {
+	out := p.directGuardsAt(b)
+	if depth >= 4 {
+		return out
+	}
+	// a guard on a merged value (`err != nil` after a block whose exits assign err) selects
+	// the incoming edges that can produce it: what holds on all of them holds here as well
+	seen := map[guardKey]bool{}
+	for _, g := range out {
+		seen[guardKey{g.If, g.Pol}] = true
+	}
+	n := len(out)
+	for i := 0; i < n; i++ {
+		for _, g := range p.threadGuard(out[i], depth) {
+			if !seen[guardKey{g.If, g.Pol}] {
+				seen[guardKey{g.If, g.Pol}] = true
+				out = append(out, g)
+			}
+		}
+	}
+	return out
+}
+
+type guardKey struct {
+	If  *ssa.If
+	Pol bool
+}
+
+// threadGuard: for a guard whose condition tests a Phi against a constant (or
+// is a boolean Phi), the guards common to every incoming edge whose value can
+// satisfy the condition.
+func (p *Program) threadGuard(g Guard, depth int) []Guard {
+	v := g.Cond
+	pol := g.Pol
+	for {
+		if u, ok := v.(*ssa.UnOp); ok && u.Op == token.NOT {
+			v, pol = u.X, !pol
+			continue
+		}
+		break
+	}
+	var phi *ssa.Phi
+	var can func(in ssa.Value) bool // may the incoming value satisfy the condition?
+	switch x := v.(type) {
+	case *ssa.Phi:
+		phi = x
+		can = func(in ssa.Value) bool {
+			if c, ok := in.(*ssa.Const); ok && c.Value != nil && c.Value.Kind() == constant.Bool {
+				return constant.BoolVal(c.Value) == pol
+			}
+			return true
+		}
+	case *ssa.BinOp:
+		if x.Op != token.EQL && x.Op != token.NEQ {
+			return nil
+		}
+		wantEq := (x.Op == token.EQL) == pol
+		ph, c := x.X, x.Y
+		if _, ok := ph.(*ssa.Phi); !ok {
+			ph, c = x.Y, x.X
+		}
+		var ok bool
+		if phi, ok = ph.(*ssa.Phi); !ok {
+			return nil
+		}
+		k, ok := c.(*ssa.Const)
+		if !ok {
+			return nil
+		}
+		can = func(in ssa.Value) bool {
+			if k.Value == nil { // comparison with nil
+				if wantEq {
+					return !p.definitelyNonNil(in, 0)
+				}
+				ic, isConst := in.(*ssa.Const)
+				return !(isConst && ic.Value == nil)
+			}
+			if ic, isConst := in.(*ssa.Const); isConst && ic.Value != nil {
+				same := constant.Compare(ic.Value, token.EQL, k.Value)
+				return same == wantEq
+			}
+			return true
+		}
+	default:
+		return nil
+	}
+	pb := phi.Block()
+	var common map[guardKey]Guard
+	feasible := 0
+	for i, in := range phi.Edges {
+		if !p.phiCan(in, can, 0) {
+			continue
+		}
+		pr := pb.Preds[i]
+		if pb.Dominates(pr) {
+			return nil // a feasible back edge: no refinement
+		}
+		feasible++
+		k := 0
+		for j, s := range pr.Succs {
+			if s == pb {
+				k = j
+			}
+		}
+		gs := p.guardsAtDepth(pr, depth+1)
+		if ifi, ok := pr.Instrs[len(pr.Instrs)-1].(*ssa.If); ok && pr.Succs[0] != pr.Succs[1] {
+			gs = append(gs, Guard{If: ifi, Cond: ifi.Cond, Pol: k == 0})
+		}
+		m := map[guardKey]Guard{}
+		for _, x := range gs {
+			m[guardKey{x.If, x.Pol}] = x
+		}
+		if common == nil {
+			common = m
+		} else {
+			for key := range common {
+				if _, ok := m[key]; !ok {
+					delete(common, key)
+				}
+			}
+		}
+	}
+	if feasible == 0 || feasible == len(phi.Edges) {
+		// nothing excluded: the dominating guards already say everything
+		if feasible == 0 {
+			return nil
+		}
+	}
+	var out []Guard
+	for _, x := range common {
+		out = append(out, x)
+	}
+	sort.Slice(out, func(i, j int) bool {
+		if out[i].If.Pos() != out[j].If.Pos() {
+			return out[i].If.Pos() < out[j].If.Pos()
+		}
+		if out[i].If.Block().Index != out[j].If.Block().Index {
+			return out[i].If.Block().Index < out[j].If.Block().Index
+		}
+		return !out[i].Pol && out[j].Pol
+	})
+	return out
+}
+
+// phiCan: can the incoming value (possibly itself a Phi) satisfy the test?
+func (p *Program) phiCan(in ssa.Value, can func(ssa.Value) bool, depth int) bool {
+	if ph, ok := in.(*ssa.Phi); ok && depth < 4 {
+		for _, e := range ph.Edges {
+			if p.phiCan(e, can, depth+1) {
+				return true
+			}
+		}
+		return false
+	}
+	return can(in)
+}
+
+// definitelyNonNil: the value cannot be a nil interface/pointer.
+func (p *Program) definitelyNonNil(v ssa.Value, depth int) bool {
+	if depth > 4 {
+		return false
+	}
+	switch x := v.(type) {
+	case *ssa.MakeInterface, *ssa.Alloc, *ssa.MakeClosure, *ssa.MakeMap, *ssa.MakeChan, *ssa.MakeSlice, *ssa.Function, *ssa.Global:
+		return true
+	case *ssa.ChangeInterface:
+		return p.definitelyNonNil(x.X, depth+1)
+	case *ssa.Phi:
+		for _, e := range x.Edges {
+			if !p.definitelyNonNil(e, depth+1) {
+				return false
+			}
+		}
+		return true
+	case *ssa.Call:
+		switch calleeName(x.Common()) {
+		case "fmt.Errorf", "errors.New":
+			return true
+		}
+		if f := x.Common().StaticCallee(); f != nil && p.inModule(f) && f.Blocks != nil && f.Signature.Results().Len() == 1 {
+			return p.alwaysNonNil(f, depth+1)
+		}
+	}
+	return false
+}
+
+func (p *Program) alwaysNonNil(f *ssa.Function, depth int) bool {
+	p.nnMu.Lock()
+	if v, ok := p.nonnil[f]; ok {
+		p.nnMu.Unlock()
+		return v
+	}
+	if p.nonnil == nil {
+		p.nonnil = map[*ssa.Function]bool{}
+	}
+	p.nonnil[f] = false // recursion guard
+	p.nnMu.Unlock()
+	res := true
+	n := 0
+	for _, ret := range returnsOf(f) {
+		rs := resultsOf(ret)
+		if len(rs) != 1 || !p.definitelyNonNil(rs[0], depth) {
+			res = false
+		}
+		n++
+	}
+	if n == 0 {
+		res = false
+	}
+	p.nnMu.Lock()
+	p.nonnil[f] = res
+	p.nnMu.Unlock()
+	return res
+}
+
+func (p *Program) directGuardsAt(b *ssa.BasicBlock) []Guard {
 	var out []Guard
 	for d := b.Idom(); d != nil; d = d.Idom() {
 		if len(d.Instrs) == 0 {
@@ -62,7 +282,7 @@ func (p *Program) guardsAt(b *ssa.BasicBlock) []Guard {
 // edgeGuards returns the guards that hold when control leaves block d through
 // successor index k: the guards at d plus the branch itself.
 func (p *Program) edgeGuards(d *ssa.BasicBlock, k int) []Guard {
-	out := p.guardsAt(d)
+	out := append([]Guard{}, p.guardsAt(d)...)
 	if ifi, ok := d.Instrs[len(d.Instrs)-1].(*ssa.If); ok && d.Succs[0] != d.Succs[1] {
 		out = append(out, Guard{If: ifi, Cond: ifi.Cond, Pol: k == 0})
 	}
@@ -183,6 +403,11 @@ func (tb *TB) atomOfRes(g Guard, res func(ssa.Value) ssa.Value) Atom {
 
 // FactsAt returns the normalised atoms that hold on entry to block b.
 func (tb *TB) FactsAt(b *ssa.BasicBlock) []Atom {
+	return tb.importFacts(tb.FactsAtRaw(b), 0)
+}
+
+// FactsAtRaw: the facts of this function only (no import from helpers).
+func (tb *TB) FactsAtRaw(b *ssa.BasicBlock) []Atom {
 	var out []Atom
 	for _, g := range tb.p.guardsAt(b) {
 		out = append(out, tb.atomOf(g))
@@ -195,7 +420,7 @@ func (tb *TB) FactsOnEdge(d *ssa.BasicBlock, k int) []Atom {
 	for _, g := range tb.p.edgeGuards(d, k) {
 		out = append(out, tb.atomOf(g))
 	}
-	return out
+	return tb.importFacts(out, 0)
 }
 
 // hasFact looks for an atom whose printed form equals want.
